@@ -11,7 +11,8 @@ ScRel == {S("rel", w, lo, hi, t, 20, sz, fe, 0, 65535) :
              w \in {8}, lo \in {-4, None}, hi \in {3, None}, t \in 10..30, sz \in {2, 3}, fe \in BOOLEAN}
          \cup {S("rel", 4, None, None, t, 20, 2, fe, 0, 65535) : t \in 8..40, fe \in BOOLEAN}
          \cup {S("rel", 8, None, None, t, 200, sz, fe, 0, 65535) : t \in (Near(200 - 128, 4) \cup Near(200 + 255, 4) \cup Near(200 + 127, 3)), sz \in {2, 3}, fe \in BOOLEAN}
-ScEnum == {S("enum", 8, 2, 5, v, 0, 9, FALSE, 0, 0) : v \in 0..11}
+\* two enumerations with different key sets ({2, 5, 9} and {3, 6, 8}); the generated operand has the same name in both
+ScEnum == {S("enum", 8, 2, 5, v, 0, 9, FALSE, 0, 0) : v \in 0..11} \cup {S("enum", 8, 3, 6, v, 0, 8, FALSE, 0, 0) : v \in 0..11}
 \* zone z1 = 8..11 in a default GLOBAL; and a redefined GLOBAL 4..40 (valid_address / address default zone)
 ScZone == {S("zone", 8, 1, None, v, 0, 0, FALSE, 8, 11) : v \in 5..14}
           \cup {S("zone", 8, 2, None, v, 0, 0, FALSE, 4, 40) : v \in (0..7 \cup 37..43)}
